@@ -22,6 +22,7 @@ import (
 	consensustypes "github.com/cosmos/cosmos-sdk/x/consensus/types"
 	distrtypes "github.com/cosmos/cosmos-sdk/x/distribution/types"
 	govv1 "github.com/cosmos/cosmos-sdk/x/gov/types/v1"
+	paramproposal "github.com/cosmos/cosmos-sdk/x/params/types/proposal"
 	upgradetypes "github.com/cosmos/cosmos-sdk/x/upgrade/types"
 	tmproto "github.com/cometbft/cometbft/proto/tendermint/types"
 	banktypes "github.com/cosmos/cosmos-sdk/x/bank/types"
@@ -354,6 +355,18 @@ func (bc *BuildCtx) Build(s *MsgSpec) sdk.Msg {
 		inner := &distrtypes.MsgCommunityPoolSpend{Authority: sdk.AccAddress(authtypes.NewModuleAddress("gov")).String(), Recipient: s.f("recipient"), Amount: coins(s.Coins2)}
 		proposer, _ := sdk.AccAddressFromBech32(s.f("proposer"))
 		m, err := govv1.NewMsgSubmitProposal([]sdk.Msg{inner}, coins(s.Coins), proposer.String(), "", "community pool spend", "spend")
+		if err != nil {
+			panic(err)
+		}
+		return m
+	case "gov.SubmitLegacyParam":
+		content := paramproposal.NewParameterChangeProposal("params", "change", []paramproposal.ParamChange{paramproposal.NewParamChange(s.f("subspace"), s.f("key"), s.f("value"))})
+		proposer, _ := sdk.AccAddressFromBech32(s.f("proposer"))
+		lc, err := govv1.NewLegacyContent(content, sdk.AccAddress(authtypes.NewModuleAddress("gov")).String())
+		if err != nil {
+			panic(err)
+		}
+		m, err := govv1.NewMsgSubmitProposal([]sdk.Msg{lc}, coins(s.Coins), proposer.String(), "", "params", "change")
 		if err != nil {
 			panic(err)
 		}
